@@ -86,5 +86,146 @@ func Families(tier string) []Family {
 		}
 		fams = append(fams, f)
 	}
+
+	// scalar-s: string / optional string / flags (C01, C04, C06)
+	{
+		f := Family{Name: "scalar-s"}
+		toks := Ts("--s", "--s=x", "--s=-x", "--s=a=b", "--s=cmd", "--str", "--so", "--so=x", "--b", "--nb", "--v", "x", "-x", "cmd", "--")
+		for mode := 0; mode < 3; mode++ {
+			c := Cfg{Mode: mode}
+			c.Nodes = []NodeCfg{rootNode(0, false), cmdNode("cmd", 1, 0, false, true)}
+			nb := opt("bool", "nb", 1)
+			nb.DefB = true
+			v := opt("incr", "v", 1)
+			v.DefI = 1
+			c.Opts = []OptCfg{opt("string", "s", 1, "str"), opt("sopt", "so", 1), opt("bool", "b", 1), nb, v}
+			f.Defs = append(f.Defs, Def{Cfg: c, Tokens: toks, L: lim(tier, 3, 4)})
+		}
+		fams = append(fams, f)
+	}
+	// scalar-n: int / float, mandatory and optional value (C01)
+	{
+		f := Family{Name: "scalar-n"}
+		toks := Ts("--i", "--i=1", "--i=-1", "--i=1x", "--io", "--io=2", "--f", "--f=1.5", "--f=x", "--fo", "1", "-1", "1x", "1.5", "--b", "--")
+		for mode := 0; mode < 3; mode++ {
+			c := Cfg{Mode: mode}
+			c.Nodes = []NodeCfg{rootNode(0, false)}
+			c.Opts = []OptCfg{opt("int", "i", 1), opt("iopt", "io", 1), opt("float", "f", 1), opt("fopt", "fo", 1), opt("bool", "b", 1)}
+			f.Defs = append(f.Defs, Def{Cfg: c, Tokens: toks, L: lim(tier, 3, 4)})
+		}
+		fams = append(fams, f)
+	}
+	// multi-*: slices and maps over the (min,max) grid (C02, C04)
+	{
+		grid := [][2]int{{1, 1}, {1, 2}, {1, 3}, {2, 2}, {2, 3}, {3, 3}}
+		type mk struct {
+			name, kind string
+			toks       []Tok
+		}
+		for _, m := range []mk{
+			{"multi-ss", "sslice", Ts("--l", "--l=v", "v", "w", "--b", "--", "-", "cmd", "-x")},
+			{"multi-is", "islice", Ts("--l", "--l=1", "--l=1..3", "1", "2", "1..3", "3..1", "x", "--b", "--")},
+			{"multi-fs", "fslice", Ts("--l", "--l=1.5", "--l=x", "1.5", "2", "x", "--b", "--")},
+			{"multi-sm", "smap", Ts("--l", "--l=k=v", "k=v", "k=w=z", "K=v", "j=1", "x", "--b", "--")},
+		} {
+			f := Family{Name: m.name}
+			for gi, g := range grid {
+				for mode := 0; mode < 3; mode++ {
+					if mode != 0 && gi != 1 {
+						continue
+					}
+					c := Cfg{Mode: mode, Lower: m.kind == "smap" && gi == 2}
+					c.Nodes = []NodeCfg{rootNode(0, false), cmdNode("cmd", 1, 0, false, true)}
+					c.Opts = []OptCfg{multi(m.kind, "l", 1, g[0], g[1]), opt("bool", "b", 1)}
+					f.Defs = append(f.Defs, Def{Cfg: c, Tokens: m.toks, L: lim(tier, 3, 5)})
+				}
+			}
+			fams = append(fams, f)
+		}
+	}
+	// term: `--` at every position after every context (C04, C09)
+	{
+		f := Family{Name: "term"}
+		toks := Ts("--", "a", "--b", "--s", "--s=v", "--l", "--so", "cmd", "--c", "--u")
+		for _, um := range []int{0, 2} {
+			for _, ro := range []bool{false, true} {
+				for mode := 0; mode < 3; mode++ {
+					if mode != 0 && (um != 2 || ro) {
+						continue
+					}
+					c := Cfg{Mode: mode}
+					c.Nodes = []NodeCfg{rootNode(um, ro), cmdNode("cmd", 1, um, ro, true)}
+					c.Opts = []OptCfg{opt("bool", "b", 1), opt("string", "s", 1), multi("sslice", "l", 1, 1, 3), opt("sopt", "so", 1), opt("bool", "c", 2)}
+					f.Defs = append(f.Defs, Def{Cfg: c, Tokens: toks, L: lim(tier, 3, 5)})
+				}
+			}
+		}
+		fams = append(fams, f)
+	}
+	// abbrev: names that prefix each other, aliases, inherited names inside a command (C05)
+	{
+		f := Family{Name: "abbrev"}
+		toks := Ts("--v", "--ve", "--ver", "--verb", "--verbose", "--vers", "--version", "--veri", "--verify",
+			"-v", "-ve", "-ver", "--ver=x", "--ve=x", "cmd", "x")
+		for mode := 0; mode < 3; mode++ {
+			c := Cfg{Mode: mode}
+			c.Nodes = []NodeCfg{rootNode(0, false), cmdNode("cmd", 1, 0, false, true)}
+			c.Opts = []OptCfg{opt("bool", "v", 1), opt("string", "ver", 1), opt("incr", "verbose", 1, "version"), opt("bool", "verify", 2)}
+			f.Defs = append(f.Defs, Def{Cfg: c, Tokens: toks, L: lim(tier, 3, 4)})
+		}
+		fams = append(fams, f)
+	}
+	// alias: each of the 12 kinds with two aliases (C06)
+	{
+		f := Family{Name: "alias"}
+		toks := Ts("--opt", "--o", "--alt", "-o", "--opt=1", "--alt=k=v", "--al", "1", "k=v", "x", "--other", "--")
+		for _, kind := range AllKinds {
+			for mode := 0; mode < 3; mode++ {
+				if mode != 0 && kind != "string" && kind != "bool" {
+					continue
+				}
+				c := Cfg{Mode: mode}
+				c.Nodes = []NodeCfg{rootNode(0, false)}
+				o := multi(kind, "opt", 1, 1, 2, "o", "alt")
+				o.UseVar = mode == 0
+				c.Opts = []OptCfg{o, opt("bool", "other", 1)}
+				f.Defs = append(f.Defs, Def{Cfg: c, Tokens: toks, L: lim(tier, 3, 4)})
+			}
+		}
+		fams = append(fams, f)
+	}
+	// modes: single-dash tokens of every shape, multibyte letters (C07)
+	{
+		f := Family{Name: "modes"}
+		toks := Ts("-xy", "-xyz", "-xys", "-xys=v", "-s=v", "-sv", "-é", "-üv", "-xq", "--xy", "--s=v", "v", "-x", "-s", "-sx")
+		for mode := 0; mode < 3; mode++ {
+			for _, um := range []int{0, 2} {
+				c := Cfg{Mode: mode}
+				c.Nodes = []NodeCfg{rootNode(um, false)}
+				c.Opts = []OptCfg{opt("bool", "x", 1), opt("bool", "y", 1), opt("incr", "z", 1), opt("string", "s", 1, "sv"),
+					opt("bool", "é", 1), opt("string", "ü", 1)}
+				f.Defs = append(f.Defs, Def{Cfg: c, Tokens: toks, L: lim(tier, 3, 4)})
+			}
+		}
+		fams = append(fams, f)
+	}
+	// wrapper: unknown options before / after command tokens, wrapper commands (C08)
+	{
+		f := Family{Name: "wrapper"}
+		toks := Ts("--b", "--u", "-u", "--u=v", "w", "sub", "--c", "a", "-bu", "n", "--")
+		for mode := 0; mode < 3; mode++ {
+			for um := 0; um < 3; um++ {
+				if mode != 0 && um == 1 {
+					continue
+				}
+				c := Cfg{Mode: mode}
+				c.Nodes = []NodeCfg{rootNode(um, false), cmdNode("w", 1, 2, false, true), cmdNode("sub", 2, 2, false, true), cmdNode("n", 1, um, false, true)}
+				c.Nodes[1].Unset = true
+				c.Opts = []OptCfg{opt("bool", "b", 1), opt("bool", "c", 2)}
+				f.Defs = append(f.Defs, Def{Cfg: c, Tokens: toks, L: lim(tier, 3, 4)})
+			}
+		}
+		fams = append(fams, f)
+	}
 	return fams
 }
